@@ -7,7 +7,7 @@ import time
 
 VERIF = os.path.dirname(os.path.dirname(os.path.abspath(__file__)))
 KNOWN_PATH = os.path.join(VERIF, "known_findings.json")
-EVID_DIR = os.path.join(VERIF, "evidence")
+EVID_DIR = os.environ.get("PMV_EVIDENCE_DIR") or os.path.join(VERIF, "evidence")
 
 
 def digest(text):
